@@ -8,14 +8,17 @@ PROPS = {
         variants=[{"name": "default", "tags": "verif"}, {"name": "purego", "tags": "verif purego"}],
         areas=["ascii.", "asmascii."],
         allowed_native=["Enc.Lemmas.Ascii"],
-        main_theorem="Enc.Props.C20.validString_spec / validPrintString_spec / equalFoldString_spec",
+        main_theorem="Enc.Props.C20.validString_spec / validPrintString_spec / equalFoldString_spec (portable algorithm), asmValidString_spec / asmValidPrintString_spec / asmEqualFoldString_spec (amd64 kernels, both CPU settings), asm_eq_purego_*",
         rule="exhaustive in-process sweep (every length 0..L, 16 alignments, every position of one deviating byte, "
              "17..256 deviating values; all byte pairs at block boundaries for EqualFold; every prefix/suffix split) in BOTH the "
              "assembly and the purego build against the byte-wise definition; a ~1/4000 sample + all byte/rune predicate cases go "
              "through the Lean driver (impl = model = spec). distinct = distinct (op,args) line; non-trivial = non-empty input",
-        trusted_base=["amd64 assembly kernels of segmentio/asm are NOT modelled: tied by the exhaustive sweep only"],
-        assumptions=["the theorem is about the portable (purego) algorithm of segmentio/asm@go.mod version; "
-                     "assembly ≡ purego is established by sweep up to length L, not by proof"],
+        trusted_base=["the amd64 kernels of segmentio/asm are modelled by hand, label by label (Enc/Model/AsciiAsm.lean); their immediates, "
+                      "displacements, mnemonics and instruction text are regenerated from the .s files on every run (tools/asmconsts) and pinned "
+                      "by decide facts; the lane semantics of the ~15 instructions used are hand-written from the Intel SDM",
+                      "ops asmascii.*: the real kernels run with and without the AVX2 bit of cpu.X86 against the model (both settings)"],
+        assumptions=["theorems are about the algorithms of segmentio/asm@go.mod version; lengths < 2^63; in-bounds-ness of each load is implied by "
+                     "the proof invariants, not stated as a theorem"],
     ),
     "C03": dict(
         lean_modules=["Enc.Props.C03"],
@@ -55,7 +58,7 @@ PROPS = {
     "C07": dict(
         lean_modules=["Enc.Props.C07"],
         variants=V_DEFAULT, areas=["proto."], allowed_native=["Enc.Lemmas.Proto"],
-        main_theorem="Enc.Props.C07.unmarshal_ne_panic, unmarshal_skip_front, unmarshal_skip_anywhere, decode_bound",
+        main_theorem="Enc.Props.C07.unmarshal_ne_panic, unmarshal_skip_front, unmarshal_skip_anywhere, decode_bound, limit_only_adds_an_error, depth_limit, deep_rejected, max_depth_accepted, parse_total, scan_total, scan_eq_records, scan_truncated, scan_matches_unmarshal_partial",
         rule="for random message types x values: every prefix of a valid encoding, 6 mutations, unknown fields of every wire "
              "type (numbers up to 2^29-1, nested) inserted at every top-level boundary, Scan/Parse vs an independent wire "
              "parser, allocation measured against K*len; plus adversarial byte strings (huge lengths, 8-13 byte varints). "
@@ -131,7 +134,7 @@ PROPS = {
         lean_modules=["Enc.Props.C11"],
         variants=V_DEFAULT, areas=["json.Decoder", "json.Parse", "json.skipSpaces", "json.decoder_parse"],
         allowed_native=["Enc.Lemmas.Json", "Lemmas.JsonScan"],
-        main_theorem="Enc.Props.C11.decodeAll_eq_spec, chunking_independent, window_ok_stable",
+        main_theorem="Enc.Props.C11.decodeAll_eq_spec, chunking_independent, decodeAll_failing_intended, inputOffset_monotone, inputOffset_bounds, buffered_conserves, parse_remainder",
         rule="value sequences with members placed to straddle / end exactly at offsets 4096, 32768, 36864, 65536 x chunkings "
              "{single read, 1-byte reads, primes, exactly-to-the-edge with zero-length reads, random} x {clean EOF, data delivered "
              "with EOF, terminal non-EOF error at a chunk boundary, data delivered with that error}; short streams cut at every "
@@ -197,7 +200,7 @@ PROPS = {
                                    "json.constructStructType", "json.appendStructFields", "json.hasNullPrefix", "json.appendToLower", "json.foldRune",
                                    "json.skipSpaces", "json.appendRune", "json.appendCoerceInvalidUTF8", "json.internalParseFlags"],
         allowed_native=["Enc.Lemmas.Json", "Lemmas.Json"],
-        main_theorem="Enc.Props.C02.unmarshalInt_eq, unmarshalString_eq (scalar decoders as coded = transcription of encoding/json literalStore / unquoteBytes, for every document); Enc.Props.C01Fields.lookupKey_eq (the field an object key is stored into = the field encoding/json chooses, exact-name layer)",
+        main_theorem="Enc.Props.C02.unmarshalInt_eq, unmarshalString_eq (scalar decoders as coded = transcription of encoding/json literalStore / unquoteBytes, for every document); Enc.Props.C02Any.decodeAny_eq_spec, decodeAny_ok_iff_valid, number_flags_change_type_only, duplicate_keys_last_wins, decodeAny_render (value-level decoder into `any` = grammar-directed specification, every byte string, every flag subset); Enc.Props.C01Fields.lookupKey_eq (the field an object key is stored into = the field encoding/json chooses, exact-name layer)",
         rule="(a) scalar layer through the Lean driver: integer literals at every width boundary +-1, 19/20-digit values around the "
              "wrap-around points of value*10+x, leading zeros, floats into integers, random 64-bit magnitudes, into all ten integer "
              "types (model = implementation = transcription of encoding/json's literalStore); string literals with every escape, "
@@ -210,8 +213,8 @@ PROPS = {
              "reflect.DeepEqual)",
         trusted_base=["encoding/json of the installed toolchain is the oracle (in-process)",
                       "strconv.ParseFloat, base64, time parsing are shared parameters (called by both)"],
-        assumptions=["the codec-construction / struct-field resolution layer is decided by differential testing, not by theorem",
-                     "error values are compared as nil / non-nil only (the property says so)"],
+        assumptions=["typed targets other than `any` (codec construction) are decided by differential testing, not by theorem",
+                     "error values are compared as nil / non-nil only (the property says so); json.decanycls compares the error class with the model only"],
     ),
     "C15": dict(
         lean_modules=["Enc.Props.C15"],
@@ -234,7 +237,7 @@ PROPS = {
         lean_modules=["Enc.Props.C14", "Enc.Props.C02Any"],
         variants=V_DEFAULT, areas=["json.encoder", "json.decoder", "json.Append", "json.Parse", "json.Encoder", "json.Decoder", "json.AppendFlags", "json.ParseFlags"],
         allowed_native=["Enc.Lemmas.Json", "Lemmas.Json"],
-        main_theorem="Enc.Props.C14.dynChoice_is_documented_precedence (decision table of decodeDynamicNumber = documented precedence), dynChoice_value",
+        main_theorem="Enc.Props.C14.dynChoice_is_documented_precedence (decision table of decodeDynamicNumber = documented precedence), dynChoice_value; string_round_trip, escapeHTML_changes_representation_only, int_round_trip_all_widths, render_valid, render_tokens_concat, sortMapKeys_members_perm; Enc.Props.C02Any.number_flags_change_type_only",
         rule="(a) number literals (width boundaries, beyond 64 bits, -0, fractions, exponents, random) x all 16 subsets of "
              "UseNumber/UseBigInt/UseInt64/UseUint64, at top level and nested: dynamic type and value, implementation = model = "
              "documented precedence; (b) on the real code: every type-directed value x {by value, by pointer} x all 8 AppendFlags "
@@ -299,7 +302,7 @@ PROPS = {
                "proto.TypeOf", "proto.structCodecOf", "proto.codecOf", "thrift.Encoder", "thrift.Decoder", "thrift.encodeFuncOf", "thrift.decodeFuncOf",
                "json.verifYield", "proto.verifYield", "thrift.verifYield"],
         allowed_native=[],
-        main_theorem="Enc.Props.C09.every_call_uses_its_codec, published_cache_good (copy-on-write cache protocol: for every interleaving every call uses the codec it would build alone)",
+        main_theorem="Enc.Props.C09.every_call_uses_its_codec, published_cache_good (copy-on-write cache protocol: for every interleaving every call uses the codec it would build alone); Enc.Props.C09.Pool.pool_exclusive, results_stable, all_sites_disciplined, repo_pools_exclusive (sync.Pool skeletons regenerated from the source)",
         rule="(a) deterministic interleavings through the `verif` yield hooks: 1..6 calls over 1..4 never-seen struct types (nested struct, "
              "pointer, slice, map, interface fields) on the json, proto, thrift-encoder and thrift-decoder caches, random orders of "
              "{run to just before publishing, publish}: every result equals the sequential one; the set of types left in the published "
@@ -309,7 +312,8 @@ PROPS = {
              "results equal to the digest of the same calls run one by one in another fresh process",
         trusted_base=["the Go race detector (dynamic, schedule-dependent) is the oracle for data races", "goroutine ids are read from runtime.Stack"],
         assumptions=["the protocol model is hand-written; its tie to the code is the schedule replay (cache membership) and the anchors on the cache functions",
-                     "sync.Pool exclusivity and proto.TypeOf's mutex are not modelled: only the race-detector stress covers them",
+                     "sync.Pool usage: skeletons regenerated by tools/extract/pools.go (conservative alias analysis; in-package callees are assumed not to "
+                     "retain arguments; nested gets are independent goroutines); proto.TypeOf's mutex is not modelled: only the race-detector stress covers it",
                      "absence of data races is shown for the explored schedules only: the Go memory model is outside the Lean model"],
     ),
 }
